@@ -25,6 +25,7 @@ import (
 
 	pkgerrors "github.com/pkg/errors"
 	"github.com/spf13/afero"
+	grpcammo "github.com/yandex/pandora/components/providers/grpc"
 	"github.com/yandex/pandora/components/providers/grpc/grpcjson"
 	httpprovider "github.com/yandex/pandora/components/providers/http"
 	httpconfig "github.com/yandex/pandora/components/providers/http/config"
@@ -71,6 +72,93 @@ type Case struct {
 	// through afero.NewOsFs(), the file system the pandora binary passes to the providers (cli: Import(afero.NewOsFs())),
 	// instead of the in-memory one. See buildOnOsFs.
 	OsFs bool `json:"os_fs,omitempty"`
+	// LongRun > 0: the bounds were scaled up so that about LongRun ammo are delivered (unbounded cells: LongRun ammo are
+	// taken before the cancel) - more than the queue of any provider holds (128 for the HTTP and grpc providers), so the
+	// provider is still reading while consumers acquire AND RELEASE ammo, and released ammo objects come back to it.
+	LongRun int `json:"long_run,omitempty"`
+	// Keys (grpc/json): Keys[i] lists the optional keys line i of the file carries - 't' = tag, 'm' = metadata,
+	// 'p' = payload; `call` is always there. nil = every line has tag and payload (what this check always wrote).
+	// An entry without tag can never be chosen by chosencases.
+	Keys []string `json:"entry_keys,omitempty"`
+	// Long lines (uri, uripost, raw): LongLine says which line is made long, LineLens by how many filler bytes -
+	//   "uri":    entry i's URI gets a query string of LineLens[i] bytes (uri: the `uri [tag]` line, uripost: the
+	//             `bodySize uri [tag]` line, raw: the request line inside the sized block),
+	//   "tag":    entry i's tag is t<i>_<LineLens[i] bytes> (the same lines; raw: the `size tag` line),
+	//   "header": a header line `[X-Long: <LineLens[0] bytes>]` precedes the first entry (uri, uripost); raw: entry i's
+	//             request carries a header line X-Long of LineLens[i] bytes.
+	// Lengths stay below 64 KiB (the uri reader's bufio.Scanner limit for one line); bodies are another dimension (Sizes).
+	LongLine string `json:"long_line,omitempty"`
+	LineLens []int  `json:"line_lens,omitempty"`
+}
+
+// kinds whose files are made of lines that have no length bound of their own below the reader's
+func hasLines(k string) bool { return k == "uri" || k == "uripost" || k == "raw" }
+
+func (c Case) lineLen(i int) int {
+	if i < len(c.LineLens) {
+		return c.LineLens[i]
+	}
+	return 0
+}
+
+func (c Case) maxLine() int {
+	m := 0
+	for _, s := range c.LineLens {
+		if s > m {
+			m = s
+		}
+	}
+	return m
+}
+
+// tag of entry i ("" = the entry has none: grpc/json lines without the key)
+func (c Case) tag(i int) string {
+	if c.Kind == "grpc/json" && !strings.Contains(c.keys(i), "t") {
+		return ""
+	}
+	if c.LongLine == "tag" && c.lineLen(i) > 0 {
+		return fmt.Sprintf("t%d_%s", i, filler(c.lineLen(i)))
+	}
+	return fmt.Sprintf("t%d", i)
+}
+
+func (c Case) uri(i int) string {
+	if c.LongLine == "uri" && c.lineLen(i) > 0 {
+		return fmt.Sprintf("/e%d?q=%s", i, filler(c.lineLen(i)))
+	}
+	return fmt.Sprintf("/e%d", i)
+}
+
+// optional keys of grpc/json line i
+func (c Case) keys(i int) string {
+	if i < len(c.Keys) {
+		return c.Keys[i]
+	}
+	return "tp"
+}
+
+func (c Case) mixedKeys() bool {
+	for i := 1; i < len(c.Keys); i++ {
+		if c.Keys[i] != c.Keys[0] {
+			return true
+		}
+	}
+	return false
+}
+
+// indexes of the entries that count, in file order: all of them, or those chosencases lists
+func (c Case) counted() []int {
+	switch c.Filter {
+	case "subset":
+		return c.Chosen
+	case "nothing":
+		return nil
+	}
+	out := make([]int, c.Entries)
+	for i := range out {
+		out[i] = i
+	}
+	return out
 }
 
 // kinds that are also built over the real file system
@@ -168,14 +256,30 @@ func isHTTP(k string) bool {
 	return k == "uri" || k == "uripost" || k == "raw" || k == "jsonline" || k == "jsonarray"
 }
 
-func genCase(t *rapid.T) Case {
+func genCase(t *rapid.T) Case { return genCaseOf(t, false) }
+
+// genLongRunCase (TestLongRuns): every case is a long run - 140-600 ammo, more than any provider's queue holds, so that
+// the provider is reading while the consumers release what they got - over entries of the tiny default size; grpc/json,
+// whose provider takes the objects it decodes into from a pool fed by Release, is drawn four times as often as the
+// others and always with two or more lines that differ in the keys they carry; chosencases is a subset in two cells of
+// three of the kinds that have it (never "matches nothing": nothing is delivered there). Everything else as genCase.
+func genLongRunCase(t *rapid.T) Case { return genCaseOf(t, true) }
+
+func genCaseOf(t *rapid.T, long bool) Case {
 	c := Case{}
 	// the generic json provider is drawn three times as often as the others: it alone has the data-source dimension
-	c.Kind = rapid.SampledFrom(append(append([]string{}, kinds...), "json", "json")).Draw(t, "kind")
+	pool := append(append([]string{}, kinds...), "json", "json")
+	if long {
+		pool = append(append([]string{}, kinds...), "grpc/json", "grpc/json", "grpc/json")
+	}
+	c.Kind = rapid.SampledFrom(pool).Draw(t, "kind")
 	if isHTTP(c.Kind) {
 		c.Preload = rapid.Bool().Draw(t, "preload")
 	}
 	c.Entries = rapid.IntRange(1, 5).Draw(t, "entries")
+	if long && c.Kind == "grpc/json" && c.Entries == 1 {
+		c.Entries = rapid.IntRange(2, 5).Draw(t, "entriesMixed")
+	}
 	switch rapid.SampledFrom([]string{"limit", "passes", "both", "none", "both"}).Draw(t, "bounds") {
 	case "limit":
 		c.Limit = rapid.IntRange(1, 2*c.Entries+1).Draw(t, "limit")
@@ -204,7 +308,11 @@ func genCase(t *rapid.T) Case {
 		c.Source = rapid.SampledFrom(jsonSources).Draw(t, "source")
 	}
 	if hasFilter(c.Kind) {
-		switch rapid.SampledFrom([]string{"", "", "", "subset", "subset", "nothing"}).Draw(t, "chosencases") {
+		filters := []string{"", "", "", "subset", "subset", "nothing"}
+		if long {
+			filters = []string{"", "subset", "subset"}
+		}
+		switch rapid.SampledFrom(filters).Draw(t, "chosencases") {
 		case "subset":
 			c.Filter = "subset"
 			first := rapid.IntRange(0, c.Entries-1).Draw(t, "chosenFirst")
@@ -228,7 +336,7 @@ func genCase(t *rapid.T) Case {
 			}
 		}
 	}
-	if hasBody(c.Kind) {
+	if hasBody(c.Kind) && !long {
 		sz := rapid.SampledFrom([]string{"tiny", "big", "medium", "tiny", "big"}).Draw(t, "sizes")
 		if sz == "big" && !sizeBoundedByOption(c.Kind) {
 			sz = rapid.SampledFrom([]string{"tiny", "medium"}).Draw(t, "sizesNoOption")
@@ -261,7 +369,118 @@ func genCase(t *rapid.T) Case {
 	if hasOsFs(c.Kind) {
 		c.OsFs = rapid.IntRange(0, 4).Draw(t, "osFs") < 2
 	}
+	if hasLines(c.Kind) && !long && rapid.IntRange(0, 3).Draw(t, "longLines") == 0 {
+		genLongLines(t, &c)
+	}
+	if c.Kind == "grpc/json" && (long || rapid.Bool().Draw(t, "keyMix")) {
+		genKeys(t, &c)
+	}
+	// long runs: only with entries of the tiny default size (a long run over 100 KiB entries costs seconds), and not where
+	// nothing is ever delivered. Half of the grpc/json cells with differing key sets, a sixth of the rest.
+	if c.maxSize() == 0 && c.maxLine() == 0 && c.Filter != "nothing" {
+		odds := 6
+		if c.mixedKeys() {
+			odds = 2
+		}
+		if long || rapid.IntRange(1, odds).Draw(t, "longRun") == 1 {
+			genLongRun(t, &c)
+		}
+	}
 	return c
+}
+
+// genLongLines makes one kind of line of the file longer than the 4096 bytes a bufio.Reader / bufio.Scanner holds at first.
+func genLongLines(t *rapid.T, c *Case) {
+	c.LongLine = rapid.SampledFrom([]string{"uri", "uri", "uri", "tag", "header"}).Draw(t, "longLineWhere")
+	lineLen := func() int {
+		switch rapid.SampledFrom([]string{"edge4k", "mid", "mid", "edge8k", "large", "huge"}).Draw(t, "lineLenRange") {
+		case "edge4k": // the line ends within a few bytes of the 4096th
+			return rapid.IntRange(4040, 4200).Draw(t, "lineLen")
+		case "mid":
+			return rapid.IntRange(4097, 9000).Draw(t, "lineLen")
+		case "edge8k":
+			return rapid.IntRange(8100, 8300).Draw(t, "lineLen")
+		case "large":
+			return rapid.IntRange(9000, 20000).Draw(t, "lineLen")
+		}
+		return rapid.IntRange(20000, 60000).Draw(t, "lineLen")
+	}
+	if c.LongLine == "header" && c.Kind != "raw" {
+		c.LineLens = []int{lineLen()}
+		return
+	}
+	c.LineLens = make([]int, c.Entries)
+	special := rapid.IntRange(0, c.Entries-1).Draw(t, "longLineEntry")
+	for i := range c.LineLens {
+		if i == special || rapid.Bool().Draw(t, "alsoLongLine") {
+			c.LineLens[i] = lineLen()
+		}
+	}
+}
+
+// genKeys draws which optional keys every line of a grpc/json file carries. Entries that chosencases lists keep their tag
+// (the oracle's `entries` is their number); where the filter leaves room at least one entry has no tag, and with two or
+// more entries one line has tag and metadata and another one lacks the metadata.
+func genKeys(t *rapid.T, c *Case) {
+	chosen := map[int]bool{}
+	for _, i := range c.Chosen {
+		chosen[i] = true
+	}
+	c.Keys = make([]string, c.Entries)
+	full := rapid.IntRange(0, c.Entries-1).Draw(t, "fullEntry")
+	bare := -1
+	if c.Entries > 1 {
+		bare = (full + rapid.IntRange(1, c.Entries-1).Draw(t, "bareEntry")) % c.Entries
+	}
+	for i := range c.Keys {
+		k := ""
+		switch {
+		case i == full:
+			k = "tmp"
+		case i == bare:
+			if chosen[i] || (c.Filter == "" && rapid.Bool().Draw(t, "bareTagged")) {
+				k = "t"
+			}
+			if c.size(i) > 0 || rapid.Bool().Draw(t, "barePayload") {
+				k += "p"
+			}
+		default:
+			if chosen[i] || rapid.Bool().Draw(t, "hasTag") {
+				k = "t"
+			}
+			if rapid.Bool().Draw(t, "hasMetadata") {
+				k += "m"
+			}
+			if c.size(i) > 0 || rapid.Bool().Draw(t, "hasPayload") {
+				k += "p"
+			}
+		}
+		c.Keys[i] = k
+	}
+}
+
+// genLongRun scales the bounds the case has (limit only / passes only / both / none stays what it is) so that about
+// 140-600 ammo are delivered.
+func genLongRun(t *rapid.T, c *Case) {
+	eff := c.effEntries()
+	if eff < 1 {
+		return
+	}
+	n := rapid.IntRange(140, 600).Draw(t, "longRunAmmo")
+	passes := (n + eff - 1) / eff
+	switch {
+	case c.Limit > 0 && c.Passes > 0:
+		if rapid.Bool().Draw(t, "longRunLimitBinds") {
+			c.Limit, c.Passes = n, passes+rapid.IntRange(0, 2).Draw(t, "sparePasses")
+		} else {
+			c.Passes, c.Limit = passes, passes*eff+rapid.IntRange(0, 5).Draw(t, "spareLimit")
+		}
+	case c.Limit > 0:
+		c.Limit = n
+	case c.Passes > 0:
+		c.Passes = passes
+	}
+	c.LongRun = n
 }
 
 // a tag that no entry of the file carries (entries are tagged t0..t<E-1>): unrelated, the next index, or near misses
@@ -269,28 +488,50 @@ func genGhost(t *rapid.T, entries int) string {
 	return rapid.SampledFrom([]string{"no-such-tag", fmt.Sprintf("t%d", entries), "T0", "t0x", "t"}).Draw(t, "ghostTag")
 }
 
-func simpleFile(format string, n int, sizes func(int) int) ag.File {
-	f := ag.File{Format: format}
-	if format == "jsonarray" {
+func simpleFile(c Case) ag.File {
+	f := ag.File{Format: c.Kind}
+	if c.Kind == "jsonarray" {
 		f.Format = "jsonline"
 		f.Layout.JSON = "array"
 	}
-	for i := 0; i < n; i++ {
-		e := ag.Entry{Method: "GET", URI: fmt.Sprintf("/e%d", i), Tag: fmt.Sprintf("t%d", i)}
+	if c.LongLine == "header" && c.Kind != "raw" && c.lineLen(0) > 0 {
+		f.Items = append(f.Items, ag.Item{Dir: &ag.KV{K: "X-Long", V: filler(c.lineLen(0))}})
+	}
+	for i := 0; i < c.Entries; i++ {
+		e := ag.Entry{Method: "GET", URI: c.uri(i), Tag: c.tag(i)}
 		switch f.Format {
 		case "uripost":
 			e.Method = "POST"
 			e.Body = []byte(fmt.Sprintf("body%d", i))
 		case "raw":
 			e.Host = "h.example.com"
+			if c.LongLine == "header" && c.lineLen(i) > 0 {
+				e.Headers = []ag.KV{{K: "X-Long", V: filler(c.lineLen(i))}}
+			}
 		}
-		if sz := sizes(i); sz > 0 {
+		if sz := c.size(i); sz > 0 {
 			e.Method = "POST"
 			e.Body = []byte(filler(sz))
 		}
 		f.Items = append(f.Items, ag.Item{Entry: &e})
 	}
 	return f
+}
+
+// grpcEntry is line i of the grpc/json file: `call` plus the optional keys the case gives it.
+func grpcEntry(c Case, i int) map[string]any {
+	m := map[string]any{"call": "target.TargetService.Hello"}
+	k := c.keys(i)
+	if strings.Contains(k, "t") {
+		m["tag"] = c.tag(i)
+	}
+	if strings.Contains(k, "m") {
+		m["metadata"] = map[string]string{"k": fmt.Sprintf("v%d", i)}
+	}
+	if strings.Contains(k, "p") {
+		m["payload"] = map[string]any{"name": fmt.Sprintf("n%d", i) + filler(c.size(i))}
+	}
+	return m
 }
 
 // stdinMu guards os.Stdin, which the stdin data source reads when it is constructed.
@@ -454,7 +695,7 @@ func buildConf(c Case) (conf map[string]any, content string, cleanup func(), err
 	if c.Filter != "" {
 		var tags []any
 		for _, i := range c.Chosen {
-			tags = append(tags, fmt.Sprintf("t%d", i))
+			tags = append(tags, c.tag(i))
 		}
 		if c.GhostTag != "" {
 			// somewhere in the middle of the list
@@ -468,7 +709,7 @@ func buildConf(c Case) (conf map[string]any, content string, cleanup func(), err
 	}
 	switch {
 	case isHTTP(c.Kind):
-		f := simpleFile(c.Kind, c.Entries, c.size)
+		f := simpleFile(c)
 		conf["type"] = ag.ProviderType(f.Format)
 		conf["file"] = write(".ammo", append(f.Render(), tail...))
 		if c.Preload {
@@ -477,7 +718,7 @@ func buildConf(c Case) (conf map[string]any, content string, cleanup func(), err
 	case c.Kind == "grpc/json":
 		var sb strings.Builder
 		for i := 0; i < c.Entries; i++ {
-			b, _ := json.Marshal(map[string]any{"tag": fmt.Sprintf("t%d", i), "call": "target.TargetService.Hello", "payload": map[string]any{"name": fmt.Sprintf("n%d", i) + filler(c.size(i))}})
+			b, _ := json.Marshal(grpcEntry(c, i))
 			sb.Write(b)
 			sb.WriteString("\n")
 		}
@@ -591,6 +832,34 @@ func check(c Case, o *vf.Obs) error {
 		o.ClassIf(reread, "entries_over_64k_read_again")
 		o.ClassIf(reread, c.Kind+"/entries_over_64k_read_again")
 	}
+	if c.maxLine() > 4096 {
+		// a line of the file (not a body) is longer than the buffer of a bufio.Reader / the first buffer of a bufio.Scanner
+		o.Class("long_line")
+		o.Class(c.Kind + "/long_line")
+		o.Class(c.Kind + "/long_line_in_" + c.LongLine)
+		o.ClassIf(c.Preload, "long_line_preload")
+		o.ClassIf(X < 0 || X > eff, "long_line_read_again")
+		o.ClassIf(c.maxLine() > 8192, "long_line_over_8k")
+	}
+	if c.Kind == "grpc/json" && c.mixedKeys() {
+		// the lines of the file do not all carry the same keys
+		untagged := false
+		for i := 0; i < c.Entries; i++ {
+			untagged = untagged || c.tag(i) == ""
+		}
+		o.Class("grpc/json/mixed_keys")
+		o.ClassIf(untagged, "grpc/json/mixed_keys_untagged_entries")
+		o.ClassIf(untagged && c.Filter == "subset", "grpc/json/mixed_keys_untagged_entries_chosencases")
+		o.ClassIf(c.LongRun > 0, "grpc/json/mixed_keys_long_run")
+		o.ClassIf(untagged && c.Filter == "subset" && c.LongRun > 0, "grpc/json/mixed_keys_untagged_entries_chosencases_long_run")
+	}
+	if c.LongRun > 0 && c.Filter != "nothing" {
+		o.Class("long_run")
+		o.Class(c.Kind + "/long_run")
+		o.ClassIf(X >= 0, "long_run_bounded")
+		o.ClassIf(X >= 0 && c.Engine, "long_run_bounded_through_engine")
+		o.ClassIf(c.Filter == "subset", "long_run_chosencases")
+	}
 	if c.Filter == "nothing" {
 		o.NonTrivial()
 		return checkNothing(c, p, o)
@@ -598,11 +867,16 @@ func check(c Case, o *vf.Obs) error {
 	if X >= 0 && !(c.Kind == "uri" && !c.Preload) {
 		o.NonTrivial()
 	}
+	id := newIdentity(c)
+	defer func() { o.ClassIf(id.reused(), c.Kind+"/released_ammo_object_delivered_again") }()
 	if X >= 0 && c.Engine {
-		return checkEngine(c, p, X)
+		if err := checkEngine(c, p, X, id); err != nil {
+			return err
+		}
+		return id.verdict(c, X)
 	}
 	if X >= 0 {
-		res, err := provrun.Drain(p, X+c.Consumers+3, c.Consumers, hangDeadline, nil)
+		res, err := provrun.Drain(p, X+c.Consumers+3, c.Consumers, hangDeadline, id.observe)
 		if err != nil {
 			return fmt.Errorf("%s limit=%d passes=%d entries=%d%s: %v", c.Kind, c.Limit, c.Passes, c.Entries, c.extras(), err)
 		}
@@ -621,16 +895,19 @@ func check(c Case, o *vf.Obs) error {
 			return fmt.Errorf("%s (preload=%v) limit=%d passes=%d entries=%d%s: provider finished with error %q after delivering its %d ammo, expected nil",
 				c.Kind, c.Preload, c.Limit, c.Passes, c.Entries, c.extras(), res.RunErr, X)
 		}
-		return nil
+		return id.verdict(c, X)
 	}
-	// unbounded: take 3E+2, then cancel; everything must come back promptly
+	// unbounded: take 3E+2 (long run: LongRun), then cancel; everything must come back promptly
 	want := 3*c.Entries + 2
+	if c.LongRun > 0 {
+		want = c.LongRun
+	}
 	if c.Live {
 		return checkLive(c, p, want, o)
 	}
 	o.ClassIf(c.SettleUs > 0, "cancel_after_consumers_stopped")
 	o.ClassIf(c.SettleUs > 0, c.Kind+"/cancel_after_consumers_stopped")
-	res, err := provrun.DrainSettle(p, want, c.Consumers, hangDeadline, time.Duration(c.SettleUs)*time.Microsecond, nil)
+	res, err := provrun.DrainSettle(p, want, c.Consumers, hangDeadline, time.Duration(c.SettleUs)*time.Microsecond, id.observe)
 	if err != nil {
 		return fmt.Errorf("%s%s unbounded, cancelled %dus after the consumers took their last ammo: %v", c.Kind, c.extras(), c.SettleUs, err)
 	}
@@ -645,6 +922,164 @@ func check(c Case, o *vf.Obs) error {
 	}
 	if c.OsFs && !cleanCancel(res.RunErr) {
 		return fmt.Errorf("%s (preload=%v)%s unbounded, ammo file on the OS file system: Run returned %q after cancel, expected nil or the bare context error (the engine fails the pool for anything else)", c.Kind, c.Preload, c.extras(), res.RunErr)
+	}
+	// exactly `want` Acquire calls were made: what they got are the first `want` ammo the provider handed over
+	return id.verdict(c, want)
+}
+
+// identity is the second half of "exactly min(limit, passes x entries) ammo items are delivered": the ammo that are
+// delivered are the entries of the file that count (all, or those chosencases lists), pass after pass in file order - so
+// the N ammo of a run are the first N of that cyclic sequence, whoever of the consumers got which. Judged for the kinds
+// whose ammo this check can read (HTTP formats: request URI, tag, body; grpc/json: tag, call, metadata, payload), where
+// all N deliveries are observed: bounded cells (drained directly: before Release; through the engine: in Shoot) and the
+// unbounded cells that stop acquiring after N. A delivered ammo is read before it is released, as a gun does.
+type identity struct {
+	mu       sync.Mutex
+	index    map[string]int // what an entry that counts looks like when delivered -> its group (entries that look alike: grpc/json lines with neither tag nor payload)
+	got      []int          // deliveries per group
+	foreign  []string       // delivered ammo that are no entry that counts (first few)
+	nForeign int
+	obsErr   error
+	seen     map[*grpcammo.Ammo]bool
+	again    bool // an ammo object came a second time: it was released, recycled by the provider and delivered again
+}
+
+func hasIdentity(k string) bool { return isHTTP(k) || k == "grpc/json" }
+
+func newIdentity(c Case) *identity {
+	if !hasIdentity(c.Kind) {
+		return nil
+	}
+	id := &identity{index: map[string]int{}, seen: map[*grpcammo.Ammo]bool{}}
+	for _, i := range c.counted() {
+		k := c.delivered(i)
+		if _, ok := id.index[k]; !ok {
+			id.index[k] = len(id.index)
+		}
+	}
+	id.got = make([]int, len(id.index))
+	return id
+}
+
+// delivered is the identity key of entry i as the provider must deliver it.
+func (c Case) delivered(i int) string {
+	if c.Kind == "grpc/json" {
+		e := grpcEntry(c, i)
+		a := grpcammo.Ammo{Tag: c.tag(i), Call: e["call"].(string)}
+		if m, ok := e["metadata"].(map[string]string); ok {
+			a.Metadata = m
+		}
+		if p, ok := e["payload"].(map[string]any); ok {
+			a.Payload = p
+		}
+		return grpcKey(&a)
+	}
+	body := ""
+	switch {
+	case c.size(i) > 0:
+		body = filler(c.size(i))
+	case c.Kind == "uripost":
+		body = fmt.Sprintf("body%d", i)
+	}
+	return httpKey(c.uri(i), c.tag(i), []byte(body))
+}
+
+func grpcKey(a *grpcammo.Ammo) string {
+	b, _ := json.Marshal(struct {
+		Tag, Call string
+		Metadata  map[string]string
+		Payload   map[string]any
+	}{a.Tag, a.Call, a.Metadata, a.Payload})
+	return string(b)
+}
+
+func httpKey(uri, tag string, body []byte) string {
+	return fmt.Sprintf("uri=%s tag=%q body[%d]=%s", uri, tag, len(body), body)
+}
+
+func (id *identity) reused() bool {
+	if id == nil {
+		return false
+	}
+	id.mu.Lock()
+	defer id.mu.Unlock()
+	return id.again
+}
+
+// observe is called with every delivered ammo before it is released (never fails: the verdict comes at the end).
+func (id *identity) observe(a core.Ammo) error {
+	if id == nil {
+		return nil
+	}
+	key := ""
+	var ptr *grpcammo.Ammo
+	if ga, ok := a.(*grpcammo.Ammo); ok {
+		key, ptr = grpcKey(ga), ga
+	} else {
+		g, err := ag.Observe(a)
+		if err != nil {
+			id.mu.Lock()
+			if id.obsErr == nil {
+				id.obsErr = err
+			}
+			id.mu.Unlock()
+			return nil
+		}
+		key = httpKey(g.URI, g.Tag, g.Body)
+	}
+	id.mu.Lock()
+	defer id.mu.Unlock()
+	if ptr != nil {
+		if id.seen[ptr] {
+			id.again = true
+		}
+		id.seen[ptr] = true
+	}
+	if pos, ok := id.index[key]; ok {
+		id.got[pos]++
+		return nil
+	}
+	id.nForeign++
+	if len(id.foreign) < 3 {
+		if len(key) > 300 {
+			key = key[:300] + "..."
+		}
+		id.foreign = append(id.foreign, key)
+	}
+	return nil
+}
+
+// verdict after a run in which exactly n ammo were delivered and observed.
+func (id *identity) verdict(c Case, n int) error {
+	if id == nil {
+		return nil
+	}
+	id.mu.Lock()
+	defer id.mu.Unlock()
+	what := fmt.Sprintf("%s (preload=%v) limit=%d passes=%d entries=%d%s", c.Kind, c.Preload, c.Limit, c.Passes, c.Entries, c.extras())
+	if id.obsErr != nil {
+		return fmt.Errorf("%s: a delivered ammo cannot be read: %v", what, id.obsErr)
+	}
+	counted := c.counted()
+	if id.nForeign > 0 {
+		return fmt.Errorf("%s: %d of the %d delivered ammo are none of the %d entries of the file that count (entries %v); e.g. %q",
+			what, id.nForeign, n, len(counted), counted, id.foreign)
+	}
+	want := make([]int, len(id.got))
+	members := make([][]int, len(id.got))
+	for pos, i := range counted {
+		g := id.index[c.delivered(i)]
+		members[g] = append(members[g], i)
+		want[g] += n / len(counted)
+		if pos < n%len(counted) {
+			want[g]++
+		}
+	}
+	for g := range want {
+		if id.got[g] != want[g] {
+			return fmt.Errorf("%s: entry %v was delivered %d times among the %d ammo of the run, expected %d (the entries that count, %v, pass after pass in file order; deliveries %v of the entries %v)",
+				what, members[g], id.got[g], n, want[g], counted, id.got, members)
+		}
 	}
 	return nil
 }
@@ -717,6 +1152,15 @@ func (c Case) extras() string {
 	}
 	if c.maxSize() > 0 {
 		fmt.Fprintf(&sb, " entry body sizes=%v", c.Sizes)
+	}
+	if c.maxLine() > 0 {
+		fmt.Fprintf(&sb, " long lines: %s of +%v bytes", c.LongLine, c.LineLens)
+	}
+	if c.Keys != nil {
+		fmt.Fprintf(&sb, " keys per line (t=tag m=metadata p=payload)=%q", c.Keys)
+	}
+	if c.LongRun > 0 {
+		fmt.Fprintf(&sb, " long run (about %d ammo)", c.LongRun)
 	}
 	return sb.String()
 }
@@ -812,17 +1256,20 @@ func checkNothing(c Case, p core.Provider, o *vf.Obs) error {
 	return nil
 }
 
-type countGun struct{ n *atomic.Int64 }
+type countGun struct {
+	n  *atomic.Int64
+	id *identity
+}
 
 func (g countGun) Bind(core.Aggregator, core.GunDeps) error { return nil }
-func (g countGun) Shoot(core.Ammo)                          { g.n.Add(1) }
+func (g countGun) Shoot(a core.Ammo)                        { g.n.Add(1); _ = g.id.observe(a) }
 
-func checkEngine(c Case, p core.Provider, X int) error {
+func checkEngine(c Case, p core.Provider, X int, id *identity) error {
 	var shots atomic.Int64
 	aggr := fake.NewAggregator(fake.AggPlan{})
 	conf := engine.Config{Pools: []engine.InstancePoolConfig{{
 		ID: "p", Provider: p, Aggregator: aggr,
-		NewGun:          func() (core.Gun, error) { return countGun{&shots}, nil },
+		NewGun:          func() (core.Gun, error) { return countGun{&shots, id}, nil },
 		NewRPSSchedule:  func() (core.Schedule, error) { return schedule.NewOnce(int64(X + 50)), nil },
 		StartupSchedule: schedule.NewOnce(int64(c.Consumers)),
 	}}}
@@ -850,4 +1297,11 @@ func TestBounds(t *testing.T) {
 	pand.Init()
 	r := vf.Start(t, "C08")
 	vf.Check(r, genCase, check)
+}
+
+// TestLongRuns: the same property and oracle over the long-run region of the matrix (see genLongRunCase).
+func TestLongRuns(t *testing.T) {
+	pand.Init()
+	r := vf.Start(t, "C08")
+	vf.Check(r, genLongRunCase, check)
 }
